@@ -13,7 +13,7 @@ from .. import sp
 ID = "C01"
 META = {
     "technique": "runtime monitoring: escape monitor + abort/failed-block pairing via sys.monitoring RAISE events + logical step budget (PY_START) + CPU-time budget (ITIMER_VIRTUAL) + growth monitor (all function entries at doubled size, second sys.monitoring tool) + 'syntax error must surface' monitor, over bounded-exhaustive token sequences, Unicode garbage, a source-derived literal dictionary and size-scaled families",
-    "level_text": "parse_string and write_string are executed on every token sequence up to the bound, on Unicode garbage, on truncations/corruptions of valid documents and on size-scaled families (10^3..10^5 lines, deep nesting, unterminated blocks); also @string reference chains/cycles and one family per string literal found in the repository source (magic-value branches); any escaping exception, a non-Library/str result, a failed block without error/raw, or a blown step/CPU budget is a violation (abort origins vs. failed blocks are recorded as evidence). A growth monitor runs every family at sizes 400 and 800 and compares the work (all Python function entries) of parsing and of writing: more than a factor 3 when the size doubles is a violation (superlinear, i.e. a practical hang at the sizes the statement names). A names family puts 90 hostile texts (format/regex metacharacters, escaped delimiters, odd white space, very long names) into every name position, once and repeated. Digit-like texts (on which isdigit() and int() disagree, 700/4400-digit numbers) go into all potentially numeric fields. Pairs of names in a relation (case variants, casefold, NFD/NFKC, prefix, extension, trailing ZWSP, reversal) go into every pair of name positions, both orders.",
+    "level_text": "parse_string and write_string are executed on every token sequence up to the bound, on Unicode garbage, on truncations/corruptions of valid documents and on size-scaled families (10^3..10^5 lines, deep nesting, unterminated blocks); also @string reference chains/cycles and one family per string literal found in the repository source (magic-value branches); any escaping exception, a non-Library/str result, a failed block without error/raw, or a blown step/CPU budget is a violation (abort origins vs. failed blocks are recorded as evidence). A growth monitor runs every family at sizes 400 and 800 and compares the work (all Python function entries) of parsing and of writing: more than a factor 3 when the size doubles is a violation (superlinear, i.e. a practical hang at the sizes the statement names). A names family puts 90 hostile texts (format/regex metacharacters, escaped delimiters, odd white space, very long names) into every name position, once and repeated. Digit-like texts (on which isdigit() and int() disagree, 700/4400-digit numbers) go into all potentially numeric fields. Pairs of names in a relation (case variants, casefold, NFD/NFKC, prefix, extension, trailing ZWSP, reversal) go into every pair of name positions, both orders. Every third text is also written under one of six non-default BibtexFormats (value columns 0/1/10/40/'auto', indents, separators, custom warning line).",
     "level_note": "'never hangs' is decided as a bounded number of repository function entries per parse plus a CPU-time budget of the worker process (20 s + 1 s per 2000 characters); the wall-clock watchdog only yields inconclusive; known finding K4: the family 'one big entry + many duplicates of its key' grows quadratically in write_string",
 }
 RULE = ("cases = all token sequences <= L over the splitter alphabet, random Unicode garbage, prefixes/corruptions of grammar "
